@@ -255,6 +255,8 @@ def check_serializer(case):
         else:
             buf = io.BytesIO() if kind in BINARY else io.StringIO()
             call(qr.save, buf, kind=kind, **kw)
+        if case['bad'] is None:
+            return Outcome((), labels + ['valid-colour-written'], True)
         return Outcome([Dev('C14/invalid-%s-accepted-%s' % (case['bad'], kind), 'save(kind=%r, %r) did not raise' % (kind, kw))], labels, True)
     except Refused:
         return Outcome((), labels + ['refused'], True, True)
@@ -276,6 +278,11 @@ def serializer_grid():
         if kind in ('png', 'svg', 'ppm'):
             for bad in BAD_COLOURS[:6]:
                 cases.append({'what': 'serializer', 'kind': kind, 'opts': {'finder_dark': bad}, 'bad': 'colour'})
+    # well-formed colours with an alpha channel: written, or refused with ValueError by a format without transparency
+    for kind in COLOUR_KINDS:
+        for ok in ([255, 0, 0, 0.5], [0, 0, 0, 0.0], [0, 0, 0, 1.0], '#ff000080', [255, 0, 0, 128], '#0008', [0, 0, 0, 0], [255, 255, 255, 254]):
+            for opts in ({'dark': ok}, {'light': ok}, {'dark': ok, 'light': None}, {'dark': ok, 'light': '#12345678'}):
+                cases.append({'what': 'serializer', 'kind': kind, 'opts': opts, 'bad': None})
     for kind in SCALE_KINDS:
         for bad in (0, -1, -0.5, -3):
             cases.append({'what': 'serializer', 'kind': kind, 'opts': {'scale': bad}, 'bad': 'scale'})
